@@ -1092,6 +1092,46 @@ pub fn units() -> Vec<Unit> {
             TraitFn("RegionHandler", "FixedChannelPlan", "select_tx_channel"),
         ],
     },
+    // ---- builder H (tie A for the region wiring): `region_dispatch!` expanded with its own rules, each arm followed
+    // through `State::new`'s plan type to the plan's `RegionHandler` impl and the region type (dispatch.rs)
+    Unit {
+        module: "Gen.RegionDispatch",
+        file: "lorawan-device/src/region/mod.rs",
+        more_files: vec![
+            "lorawan-encoding/src/types.rs",
+            "lorawan-device/src/region/constants.rs",
+            "lorawan-device/src/mac/mod.rs",
+            "lora-modulation/src/lib.rs",
+            "lorawan-device/src/region/dynamic_channel_plans/mod.rs",
+            "lorawan-device/src/region/dynamic_channel_plans/eu868.rs",
+            "lorawan-device/src/region/dynamic_channel_plans/eu433.rs",
+            "lorawan-device/src/region/dynamic_channel_plans/in865.rs",
+            "lorawan-device/src/region/dynamic_channel_plans/as923.rs",
+            "lorawan-device/src/region/fixed_channel_plans/mod.rs",
+            "lorawan-device/src/region/fixed_channel_plans/us915/mod.rs",
+            "lorawan-device/src/region/fixed_channel_plans/us915/datarates.rs",
+            "lorawan-device/src/region/fixed_channel_plans/us915/frequencies.rs",
+            "lorawan-device/src/region/fixed_channel_plans/au915/mod.rs",
+            "lorawan-device/src/region/fixed_channel_plans/au915/datarates.rs",
+            "lorawan-device/src/region/fixed_channel_plans/au915/frequencies.rs",
+        ],
+        imports: vec!["LoraVerif.Gen.Region", "LoraVerif.Gen.RegionStatic"],
+        items: vec![
+            ExternUnit("Gen.Region"),
+            ExternEnum("Region"),
+            CustomMulti(crate::dispatch::region_dispatch),
+        ],
+    },
+    Unit {
+        module: "Gen.NextLowerDr",
+        file: "lorawan-device/src/mac/session.rs",
+        more_files: vec![],
+        imports: vec!["LoraVerif.Gen.Region", "LoraVerif.Gen.RegionStatic", "!LoraVerif.Gen.RegionDispatch"],
+        items: vec![
+            Raw(crate::dispatch::NEXT_LOWER_RAW),
+            CustomMulti(crate::dispatch::next_lower),
+        ],
+    },
     ]
 }
 
